@@ -88,13 +88,16 @@ ScenarioCerts(s) ==
   THEN {} ELSE {"CERT.bad"}
 
 TankNames(s) == {s.nodes[i].name : i \in {j \in DOMAIN s.nodes : s.nodes[j].type = "T"}}
-Acc0(s, r) == [n \in TankNames(s) |-> Abs(N(r.dem[n]))]
-AccNext(s, a, r) == [n \in TankNames(s) |-> MaxD(a[n], Abs(N(r.dem[n])))]
+\* acc[n] = [q: largest |net inflow| so far, off: the level has left the domain of the volume curve at some row
+\* (np.interp clamps there and the stored volume is lost: limits are not asserted afterwards)]
+Acc0(s, r) == [n \in TankNames(s) |-> [q |-> Abs(N(r.dem[n])), off |-> ~OnCurve(NodeRec(s, n), Level(r, NodeRec(s, n)))]]
+AccNext(s, a, r) == [n \in TankNames(s) |-> [q |-> MaxD(a[n].q, Abs(N(r.dem[n]))),
+                                              off |-> a[n].off \/ ~OnCurve(NodeRec(s, n), Level(r, NodeRec(s, n)))]]
 StepClauses(s, p, r, a) ==
   IF Want(s, "C06") /\ s.all
   THEN UNION {IF s.nodes[i].type = "T"
               THEN Bad("C06.tank_step@" \o s.nodes[i].name, TankStep(p, r, s.nodes[i]))
-                   \cup Bad("C06.tank_limits@" \o s.nodes[i].name, TankLimits(a[s.nodes[i].name], r, s.nodes[i]))
+                   \cup Bad("C06.tank_limits@" \o s.nodes[i].name, a[s.nodes[i].name].off \/ TankLimits(a[s.nodes[i].name].q, r, s.nodes[i]))
               ELSE {} : i \in DOMAIN s.nodes}
        \cup Bad("C16.index_increasing", r.t > p.t)
   ELSE {}
